@@ -47,7 +47,7 @@ impl Method for MeanAbsDev {
 
 	fn new(length: Self::Params, value: &Self::Input) -> Result<Self, Error> {
 		match length {
-			0 => Err(Error::WrongMethodParameters),
+			0 | PeriodType::MAX => Err(Error::WrongMethodParameters),
 			length => Ok(Self(SMA::new(length, value)?)),
 		}
 	}
